@@ -6,3 +6,6 @@ from pyvc.frontend import Program
 from contracts import registry
 p = Program()
 print("setup ok: z3", z3.get_version_string(), "-", len(registry.CONTRACTS), "contracts,", len(p.modules), "source modules")
+
+from checks import static
+print("lean lemmas:", static.lean_lemmas("/repo/src"))
